@@ -74,7 +74,8 @@ func applyOp(op extOp, model *lib.Tree, base *lib.Tree) int {
 	} else {
 		lk := mimetype.Lookup(op.Parent)
 		if lk == nil {
-			panic("verif harness: Lookup(" + op.Parent + ") returned nil for a registered parent")
+			// the library lost a registered name: reported by the caller, not a harness bug
+			panic(lostName{op.Parent})
 		}
 		lk.Extend(det, op.MIME, op.Ext, op.Aliases...)
 		pid = model.Lookup(op.Parent)
@@ -84,6 +85,9 @@ func applyOp(op extOp, model *lib.Tree, base *lib.Tree) int {
 	}
 	return model.AddExt(pid, op.MIME, op.Ext, op.Aliases, det)
 }
+
+// lostName is the panic value used when Lookup of a registered name returns nil.
+type lostName struct{ name string }
 
 var extCounter int
 
@@ -145,7 +149,21 @@ func genHistory(r *rand.Rand, base *lib.Tree, k int, seeds [][]byte, upperNames 
 		}
 		if r.Intn(12) == 0 {
 			// the name of a built-in format is used for a new format somewhere else in the tree
-			op.MIME = []string{"text/xml", "application/json", "application/zip", "text/plain", "application/octet-stream", "video/quicktime", "image/png"}[r.Intn(7)]
+			bi := [][2]string{{"text/xml", ".xml"}, {"application/json", ".json"}, {"application/zip", ".zip"}, {"text/plain", ".txt"}, {"application/octet-stream", ""}, {"video/quicktime", ".mov"}, {"image/png", ".png"}, {"application/pdf", ".pdf"}}[r.Intn(8)]
+			op.MIME = bi[0]
+			if r.Intn(2) == 0 {
+				op.Ext = bi[1]
+				if r.Intn(2) == 0 { // next to the built-in of that name and extension
+					for _, n := range base.Nodes {
+						if n.MIME == bi[0] && n.Ext == bi[1] && n.Parent >= 0 {
+							op.Parent = base.Nodes[n.Parent].MIME
+							if n.Parent == 0 {
+								op.Parent = ""
+							}
+						}
+					}
+				}
+			}
 		}
 		if upperNames && len(ops) > 0 && r.Intn(6) == 0 {
 			// a name registered before in this history is used again (same or another
@@ -155,8 +173,13 @@ func genHistory(r *rand.Rand, base *lib.Tree, k int, seeds [][]byte, upperNames 
 			if r.Intn(2) == 0 {
 				op.Parent = prev.Parent
 			}
+			if r.Intn(2) == 0 {
+				op.Ext = prev.Ext // same name AND same extension: still a new format
+			}
 		}
-		op.Ext = fmt.Sprintf(".v%d", extCounter%97)
+		if op.Ext == "" && op.MIME != "application/octet-stream" {
+			op.Ext = fmt.Sprintf(".v%d", extCounter%97)
+		}
 		na := r.Intn(3)
 		for a := 0; a < na; a++ {
 			op.Aliases = append(op.Aliases, fmt.Sprintf("application/x-verif-alias-%d-%d", extCounter, a))
